@@ -4,7 +4,8 @@ Path rules over ShareCrawler.{process_prefixdir, start_current_prefix,
 start_slice, stopService, save_state, load_state, __init__} and
 _LeaseStateSerializer.save (DESIGN.md section 5, C27); C27.6 adds a
 definite-assignment check of the same functions (locals and the instance
-attributes the traversal reads)."""
+attributes the traversal reads); C27.7 decides which part of the bucket list
+the bucket loop walks."""
 import builtins
 import copy
 
@@ -34,14 +35,21 @@ EXPLANATION = (
     "of start_slice / start_current_prefix / process_prefixdir / save_state / load_state / __init__ / the serializer "
     "and its helpers is bound on every CFG path (exception edges included) to each of its reads, and every instance "
     "attribute the traversal reads is a class attribute, a twisted Service attribute, or is set on every path through "
-    "ShareCrawler.__init__ (directly or in a method it calls, e.g. load_state). "
+    "ShareCrawler.__init__ (directly or in a method it calls, e.g. load_state); (7) the bucket loop - known by its role, "
+    "the innermost for loop around the process_bucket call, whether it iterates the list, a slice of it, enumerate() or "
+    "an index range - walks the bucket list to its end and from its beginning; a start index other than 0 may come only "
+    "from instance state that is back at its constructor value on every normal return of process_prefixdir or of "
+    "start_current_prefix or before the prefix loop of every new cycle (or whose use is tied to the cycle number by an equality test): an in-memory resume position "
+    "that is never cleared makes later cycles skip the buckets before it. "
     "Undecided: 'exactly once' under SIGKILL between process_bucket and save_state (documented duplicate work), "
     "buckets added or removed while a prefix is cached, clock values (the time-slice tests 'time.time() >= start_slice + "
     "cpu_slice' may be negated, weakened or lose their raise without any rule firing: that changes only how often the "
     "crawler yields, every bucket is still covered; likewise the sleep-time arithmetic of start_slice), the subclass "
     "hooks (started_cycle / finished_prefix / finished_cycle / add_initial_state / yielding calls are not required), "
     "other run-time exceptions inside a slice (KeyError on a missing state key, exceptions raised by process_bucket), "
-    "stopService called from inside a slice (one-shot crawlers) relying on start_slice having cleared self.timer.")
+    "stopService called from inside a slice (one-shot crawlers) relying on start_slice having cleared self.timer; "
+    "whether a non-zero start index that passes (7) is the right number (e.g. an off-by-one in a recorded resume offset), "
+    "a start computed from the persisted state (reported as ANALYSIS-ERROR), while loops.")
 TECHNIQUE = "static analysis: CFG path rules (must-precede / must-follow / guarded effect) with flow-normalised edge facts"
 
 SC = "storage.crawler:ShareCrawler"
@@ -105,6 +113,134 @@ def _loop_rules(r, fn, cfg, head, work, marker, what_work, what_marker):
 
 def _inside(loop_ast, node_ast):
     return any(x is node_ast for st in loop_ast.body for x in own_nodes(st))
+
+
+def _bucket_loop(pp, pcfg, pn, pwork, buckets):
+    """The bucket loop of process_prefixdir, found by its role - the innermost for loop around the process_bucket call -
+    and the way it walks the bucket-list parameter.  Returns (head, B, bind, start, stop):
+    B      the local that holds the bucket of the iteration,
+    bind   the statement node `B = <buckets>[<index>]` of an indexed loop (None when B is the loop target itself),
+    start  the expression of the index of the first bucket visited (None: the beginning of the list),
+    stop   the expression of the index the walk stops before (None: the end of the list).
+    Recognised: for B in L / L[a:] / L[a:b], for i in range(b) / range(a, b) with B = L[i], for i, B in enumerate(L),
+    where L is the parameter, possibly through sorted()/list()/tuple() or a local copy."""
+    heads = [n for n in pcfg.nodes if n.kind == "iter" and _inside(n.ast, pwork.ast)]
+    head = _one([h for h in heads if not any(o is not h and _inside(h.ast, o.ast) for o in heads)],
+                "for loop around the process_bucket call in process_prefixdir")
+
+    def is_list(e, at=None, depth=6):
+        at = at or head
+        if isinstance(e, ast.Name):
+            ds = pn.rd.get(at.id, {}).get(e.id)
+            if not ds or len(ds) != 1 or depth <= 0:
+                return False
+            (d,) = tuple(ds)
+            if d == C.PARAM_DEF:
+                return e.id == buckets
+            v = pn._def_value(pcfg.nodes[d], e.id)
+            return v is not None and is_list(v, pcfg.nodes[d], depth - 1)
+        if depth > 0 and isinstance(e, ast.Call) and call_name(e) in ("sorted", "list", "tuple") and len(e.args) == 1 \
+                and not e.keywords:
+            return is_list(e.args[0], at, depth - 1)
+        return False
+
+    unknown = AnchorVanished("the loop around process_bucket (for %s in %s) does not walk the bucket list %s in a recognised way"
+                             % (src(pp, head.ast.target), src(pp, head.ast.iter), buckets))
+    tgt, it = head.ast.target, pn.resolve(head, head.ast.iter)
+    if isinstance(tgt, ast.Name) and is_list(it):
+        return head, tgt.id, None, None, None
+    if isinstance(tgt, ast.Name) and isinstance(it, ast.Subscript) and isinstance(it.slice, ast.Slice) and is_list(it.value) \
+            and (it.slice.step is None or pn.norm(head, it.slice.step) == "1"):
+        return head, tgt.id, None, it.slice.lower, it.slice.upper
+    if isinstance(tgt, ast.Tuple) and len(tgt.elts) == 2 and all(isinstance(t, ast.Name) for t in tgt.elts) \
+            and isinstance(it, ast.Call) and call_name(it) == "enumerate" and len(it.args) == 1 and not it.keywords \
+            and is_list(it.args[0]):
+        return head, tgt.elts[1].id, None, None, None
+    if isinstance(tgt, ast.Name) and isinstance(it, ast.Call) and call_name(it) == "range" and not it.keywords \
+            and len(it.args) in (1, 2):
+        binds = []
+        for n in pcfg.nodes:
+            if n.kind == "stmt" and isinstance(n.ast, ast.Assign) and len(n.ast.targets) == 1 \
+                    and isinstance(n.ast.targets[0], ast.Name) and _inside(head.ast, n.ast):
+                v = n.ast.value
+                if isinstance(v, ast.Subscript) and isinstance(v.slice, ast.Name) and v.slice.id == tgt.id and is_list(v.value, n):
+                    binds.append(n)
+        bind = _one(binds, "statement <bucket> = %s[%s] in the indexed bucket loop" % (buckets, tgt.id))
+        stop = it.args[-1]
+        if isinstance(stop, ast.Call) and call_name(stop) == "len" and len(stop.args) == 1 and is_list(stop.args[0]):
+            stop = None
+        return head, bind.ast.targets[0].id, bind, (it.args[0] if len(it.args) == 2 else None), stop
+    raise unknown
+
+
+def _may_unsettle(ci, fn, attr, want, depth):
+    """fn may store self.<attr> with a value other than `want` (directly or in a method of the class it calls)."""
+    path = "self." + attr
+    fnorm = FlowNorm(fn)
+    for n in fn.cfg().nodes:
+        if path in node_stores(n):
+            v = assign_value(n, path)
+            if v is None or fnorm.norm(n, v) != want:
+                return True
+        if depth > 0:
+            for c in node_calls(n):
+                nm = call_name(c)
+                if nm.startswith("self.") and nm.count(".") == 1:
+                    m = ci.lookup(nm.split(".", 1)[1])
+                    if m is not None and m is not fn and _may_unsettle(ci, m, attr, want, depth - 1):
+                        return True
+    return False
+
+
+def _overridden(idx, ci, name):
+    return any(name in sub.methods for sub in idx.subclasses(ci) if not sub.module.name.startswith("allmydata.test"))
+
+
+def _attr_effects(idx, ci, fn, attr, want, depth=2):
+    """node id -> True (the node leaves self.<attr> holding a value whose normal form is `want`: it stores it, or calls a
+    method of the class that ends that way on every normal path and that no subclass overrides) / False (it stores
+    something else, or calls a method that may)."""
+    path = "self." + attr
+    fnorm = FlowNorm(fn)
+    effect = {}
+    for n in fn.cfg().nodes:
+        if n.kind in ("entry", "exit", "raise"):
+            continue
+        eff = None
+        if depth > 0:
+            for c in node_calls(n):
+                nm = call_name(c)
+                if nm.startswith("self.") and nm.count(".") == 1:
+                    m = ci.lookup(nm.split(".", 1)[1])
+                    if m is None or m is fn:
+                        continue
+                    settles = not _overridden(idx, ci, m.name) and not _left_unsettled(idx, ci, m, attr, want, depth - 1)
+                    if settles:
+                        eff = True
+                    elif _may_unsettle(ci, m, attr, want, depth - 1):
+                        eff = False
+        if path in node_stores(n):
+            v = assign_value(n, path)
+            eff = v is not None and fnorm.norm(n, v) == want
+        if eff is not None:
+            effect[n.id] = eff
+    return effect
+
+
+def _left_unsettled(idx, ci, fn, attr, want, depth=2):
+    """[] when on every normal path through fn the last thing that happens to self.<attr> is a store of a value whose
+    normal form is `want`; else [(exit node, Witness)] of a path that returns with the attribute untouched or holding
+    something else."""
+    cfg = fn.cfg()
+    effect = _attr_effects(idx, ci, fn, attr, want, depth)
+
+    def tr(n, lab, nxt, st):
+        if lab == "exc":
+            return None
+        return effect.get(n.id, st)
+    visited, parent = explore(cfg, False, tr)
+    return [(cfg.nodes[nid], witness(cfg, parent, (nid, st))) for (nid, st) in sorted(visited)
+            if cfg.nodes[nid].kind == "exit" and not st]
 
 
 # --------------------------------------------------------------------------
@@ -245,11 +381,12 @@ def run(ctx: Context):
     if len(pparams) < 5:
         raise AnchorVanished("process_prefixdir signature changed: %s" % pparams)
     P_CYCLE, P_PREFIX, P_DIR, P_BUCKETS, P_START = pparams[:5]
-    phead = _one([n for n in pcfg.nodes if n.kind == "iter" and isinstance(n.ast.iter, ast.Name)
-                  and n.ast.iter.id == P_BUCKETS and isinstance(n.ast.target, ast.Name)],
-                 "loop over the bucket list in process_prefixdir")
-    B = phead.ast.target.id
     pwork = _one(pcfg.find(has_call_named("self.process_bucket")), "self.process_bucket call in process_prefixdir")
+    # the bucket loop is known by its role (the loop around process_bucket), not by its spelling: B is the local holding
+    # the bucket of the iteration, pbind the statement that takes it out of the list in an indexed loop, pstart / pstop
+    # the part of the list that is walked (None: from the beginning / to the end) - decided by C27.7
+    phead, B, pbind, pstart, pstop = _bucket_loop(pp, pcfg, pn, pwork, P_BUCKETS)
+    BN = lambda n: pn.norm(n, ast.Name(id=B, ctx=ast.Load()))       # B as the edge facts at n spell it
     pmark = _one(pcfg.find(_state_store(pn, "last-complete-bucket")), "store of state['last-complete-bucket'] in process_prefixdir")
 
     # ---- shared anchors: start_current_prefix
@@ -282,9 +419,18 @@ def run(ctx: Context):
                   "last-complete-bucket is set to %s, not to the bucket just processed (%s)" % (src(pp, mv), B))
         _loop_rules(r, pp, pcfg, phead, pwork, pmark, "process_bucket", "last-complete-bucket")
         # no store to the loop variable inside the loop
+        loop_names = {B} | {t.id for t in ast.walk(phead.ast.target) if isinstance(t, ast.Name)}
         for n in pcfg.nodes:
-            if n is not phead and B in node_stores(n):
-                r.violation(pp, pp.loc(n.ast), "the bucket variable %s is re-bound inside the loop" % B)
+            if n is not phead and n is not pbind and n.kind not in ("entry", "exit", "raise"):
+                for nm in sorted(loop_names & set(node_stores(n))):
+                    r.violation(pp, pp.loc(n.ast), "the %s %s is re-bound inside the loop" % (
+                        "bucket variable" if nm == B else "loop variable", nm))
+        if pbind is not None:
+            # an indexed loop: the bucket is taken out of the list before anything in the iteration looks at it
+            for (n, w) in find_path_avoiding(pcfg, lambda n: n is not pbind and n is not phead and _inside(phead.ast, n.ast)
+                                             and B in _node_loads(n), gate_node=lambda n: n is pbind, kill=lambda n: n is phead):
+                r.violation(pp, pp.loc(n.ast), "%s is read before it was taken from the bucket list in this iteration: the "
+                            "previous iteration's bucket is tested / processed again (path: %s)" % (B, w.brief()), w)
         # prefix level
         r.site(sc, cwork.ast, "process_prefixdir")
         r.site(sc, cmark.ast, "marker last_complete_prefix_index")
@@ -315,11 +461,11 @@ def run(ctx: Context):
             ft = pn.edge_fact(n, lab)
             if not ft:
                 return False
-            return (ft[0] == "is" and set(ft[1:]) == {"None", LC}) or (ft[0] == "<" and ft[1] == LC and ft[2] == B)
+            return (ft[0] == "is" and set(ft[1:]) == {"None", LC}) or (ft[0] == "<" and ft[1] == LC and ft[2] == BN(n))
 
         def skip(n, lab):
             ft = pn.edge_fact(n, lab)
-            return bool(ft) and ft[0] == "<=" and ft[1] == B and ft[2] == LC
+            return bool(ft) and ft[0] == "<=" and ft[1] == BN(n) and ft[2] == LC
         r.site(pp, pwork.ast, "processed iff not already complete")
         for (n, w) in find_path_avoiding(pcfg, lambda n: n is pwork, gate_edge=go, kill=lambda n: n is phead):
             r.violation(pp, pp.loc(n.ast), "a bucket is processed on a path that established neither last-complete-bucket "
@@ -924,6 +1070,91 @@ def run(ctx: Context):
                 r.violation(init, init.loc(), "%s reads self.%s, which ShareCrawler.__init__ does not set on every path "
                             "(AttributeError in the slice - at the latest after a restart in mid-cycle; the slice "
                             "aborts without save_state and without re-arming the timer)" % (short(f), a), bad[0][1])
+
+    # -- 7. the bucket loop walks the whole list ------------------------------------------
+    # Within a cycle a bucket may be passed over only because it compares <= the persisted last-complete-bucket of the
+    # same cycle (C27.2 decides that for the buckets the loop visits).  The loop itself must therefore visit every
+    # bucket of the list it is given: it ends at the end of the list, and it starts at the beginning - unless the start
+    # comes from crawler state that cannot outlive the situation it describes: every attribute the start is computed
+    # from is back at the value the constructor gives it on every normal return of process_prefixdir (end of the
+    # prefixdir: the last thing that happens to it on each path is such a store - a reset after the loop, or a reset
+    # where it is read followed only by stores that lead to the TimeSliceExceeded raise), or on every normal return of
+    # start_current_prefix (end of the cycle), or on every path that starts a new cycle before its prefix loop, or the
+    # start is used only where it was compared equal to the cycle being run.  (A reset in a hook that subclasses override
+    # without upcall - finished_cycle, started_cycle - does not count.)  A start
+    # that survives the cycle makes every later cycle skip the buckets before it without any marker saying so.
+    with ctx.rule("C27.7", "R1/R3", "bucket-loop domain: the loop around process_bucket walks the bucket list to its end and "
+                  "from its beginning; a start index other than 0 comes only from crawler state that is back at its "
+                  "constructor value on every normal return of process_prefixdir (end of the prefixdir) or of "
+                  "start_current_prefix (end of the cycle) or before the prefix loop of a new cycle, "
+                  "or that is keyed to the cycle number", expected=2) as r:
+        sc_cls = idx.cls(SC)
+        init = idx.func(SC + ".__init__")
+        inorm = FlowNorm(init)
+        CUR7 = norm_src("self.state['current-cycle']")
+
+        def resumed(n, lab):
+            ft = cn.edge_fact(n, lab)
+            return bool(ft) and ft[0] in ("is not", "!=") and set(ft[1:]) == {"None", CUR7}
+        r.site(pp, phead.ast.iter, "walks to the end of the list")
+        if pstop is not None:
+            r.violation(pp, pp.loc(pstop), "the bucket loop stops before index %s, not at the end of the bucket list %s: the "
+                        "buckets from there on are never processed" % (src(pp, pstop), P_BUCKETS))
+        r.site(pp, phead.ast.iter, "starts at the first bucket" if pstart is None else "start index %s" % src(pp, pstart))
+        # every way the start index can be chosen: (the node where the choice is made - the store to the start variable,
+        # or the loop head -, the facts established inside the expression, the value with its locals followed back)
+        choices = []
+        for (tsite, tconds, texpr) in (_leaves(pn, phead, pstart, depth=1) if pstart is not None else []):
+            for (site, conds, leaf) in _leaves(pn, tsite, texpr, tconds):
+                choices.append((tsite, site, conds, leaf))
+        for (tsite, site, conds, leaf) in choices:
+            v = pn.at(site).norm(leaf)
+            if v == "0":
+                continue
+            deps = depends_on(pp, leaf)
+            attrs = sorted({".".join(d.split(".")[:2]) for d in deps if d.startswith("self.")})
+            if not attrs:
+                r.violation(pp, pp.loc(site.ast if site is not phead else phead.ast.iter), "the bucket loop can start at index %s "
+                            "instead of 0: the buckets before it are passed over although they do not compare <= "
+                            "last-complete-bucket - they are not covered in this cycle" % v)
+                continue
+            keyed = not _not_established(pn, pcfg, tsite, conds, lambda ft: ft[0] == "==" and any(
+                re.search(r"(?<![\w.])%s(?![\w(])" % re.escape(P_CYCLE), x or "") for x in ft[1:]))
+            for a in attrs:
+                name = a.split(".", 1)[1]
+                if name == "state":
+                    raise AnalysisError("the start of the bucket loop (%s) is computed from the persisted crawler state: "
+                                        "not decided" % v)
+                ivals = {inorm.norm(n, assign_value(n, a)) for n in init.cfg().find(stores(a)) if assign_value(n, a) is not None}
+                if len(ivals) != 1:
+                    r.violation(pp, pp.loc(site.ast if site is not phead else phead.ast.iter), "the bucket loop starts at %s, "
+                                "taken from %s, which ShareCrawler.__init__ does not give one definite initial value" % (v, a))
+                    continue
+                (want,) = tuple(ivals)
+                end_of_prefix = _left_unsettled(idx, sc_cls, pp, name, want)
+                end_of_cycle = _left_unsettled(idx, sc_cls, sc, name, want)
+                # ... or at the start of a cycle: the prefix loop of a cycle that is not a resumed one (current-cycle was
+                # None on entry) is reached only after such a store
+                eff = _attr_effects(idx, sc_cls, sc, name, want)
+                def tr_start(n, lab, nxt, st, eff=eff):
+                    if lab == "exc" or n is chead:
+                        return None                      # the first arrival at the prefix loop is what counts
+                    return True if resumed(n, lab) else eff.get(n.id, st)
+                svis, _spar = explore(ccfg, False, tr_start)
+                start_of_cycle = [x for x in svis if x == (chead.id, False)]
+                r.count(len(pcfg.nodes) + 2 * len(ccfg.nodes))
+                if keyed or not end_of_prefix or not end_of_cycle or not start_of_cycle:
+                    continue
+                w = end_of_prefix[0][1]
+                r.violation(pp, pp.loc(site.ast if site is not phead else phead.ast.iter), "the bucket loop can start at %s "
+                            "instead of 0, taken from %s, and that attribute is not back at its initial value %s on every "
+                            "normal return of process_prefixdir (end of the prefixdir; path: %s) nor on every normal return "
+                            "of start_current_prefix (end of the cycle) nor before the prefix loop of every newly started "
+                            "cycle, nor is its use tied "
+                            "to the cycle number %s: once set it is still in force when a later cycle reaches this "
+                            "prefixdir, whose first buckets are then passed over although they do not compare <= the "
+                            "last-complete-bucket of that cycle - they are silently not covered" % (
+                                v, a, want, w.brief(), P_CYCLE), w)
 
 
 def _comp_bound(e):
